@@ -8,6 +8,8 @@ CONSTANTS
   SPeriod = 2
   Discipline = "threads"
   MaxNest = 2
+  LoopForever = FALSE
+  FastPathChecksAtomicQ = TRUE
   Sleeper = FALSE
 VIEW MCView
 INVARIANT Safety
